@@ -14,6 +14,8 @@ RULE_TEXT = ("template rule on engine output, per read method and per outcome: O
 METHODS = {"parse_u8_at": ("u8", 1), "parse_u16_at": ("u16", 2), "parse_u32_at": ("u32", 4), "parse_u64_at": ("u64", 8),
            "parse_i32_at": ("i32", 4), "parse_i64_at": ("i64", 8)}
 
+from ..prov import norm as pnorm
+
 
 def wh(span):
     return "%s:%d:%d" % (span["file"], span["line"], span["col"])
@@ -51,9 +53,10 @@ def check_method(F, rep, name, ty, size):
     for t, st in leaves:
         offv = an.read(st, off_lv)
         if t.op == "agg" and t.args[3] == "Ok":
-            if t is want_le and ("true", little) in st.facts:
+            # compared in provenance normal form: insensitive to generic-argument spelling and to helper extraction
+            if pnorm(t) == pnorm(want_le) and ("true", little) in st.facts:
                 seen["le"] += 1
-            elif t is want_be and ("false", little) in st.facts:
+            elif pnorm(t) == pnorm(want_be) and ("false", little) in st.facts:
                 seen["be"] += 1
             else:
                 okall = False
@@ -62,13 +65,13 @@ def check_method(F, rep, name, ty, size):
                         % (q, pp(t), "little" if ("true", little) in st.facts else "big" if ("false", little) in st.facts else "?",
                            pp(want_le), pp(want_be)))
                 continue
-            if offv is not end:
+            if pnorm(offv) != pnorm(end):
                 okall = False
                 rep.bad("read-template", q + ":advance", w,
                         "%s: on success *offset = %s, expected %s (advance by exactly %d)" % (q, pp(offv), pp(end), size))
         elif t.op == "agg" and t.args[3] == "Err":
             seen["err"] += 1
-            if offv is not off0:
+            if pnorm(offv) != pnorm(off0):
                 okall = False
                 rep.bad("read-template", q + ":err-untouched", w,
                         "%s: an error outcome (%s) leaves *offset = %s instead of untouched" % (q, pp(t)[:120], pp(offv)))
